@@ -3,9 +3,11 @@ package sym
 import (
 	"crypto/sha256"
 	"crypto/sha512"
+	"encoding/base64"
 	"encoding/hex"
 	"fmt"
 	"math/big"
+	"os"
 
 	"verif/gosym/smt"
 )
@@ -194,38 +196,84 @@ func evalRaw(t *smt.T, m map[string]*big.Int, memo map[*smt.T]*big.Int) *big.Int
 	return big.NewInt(0)
 }
 
+// nativeBytes renders a payload (bytes, token bytes) the way the native twin
+// will see it under model m.
+func (p *Path) nativeBytes(payload []Value, m map[string]*big.Int, depth int) ([]byte, bool) {
+	var out []byte
+	for i := 0; i < len(payload); i++ {
+		switch v := payload[i].(type) {
+		case *smt.T:
+			out = append(out, byte(evalTerm(v, m).Int64()))
+		case *AtomByte:
+			if v.Off != 0 {
+				return nil, false
+			}
+			s, ok := p.nativeAtom(v.A, m, depth)
+			if !ok {
+				return nil, false
+			}
+			out = append(out, s...)
+			i += v.A.Len - 1
+		default:
+			return nil, false
+		}
+	}
+	return out, true
+}
+
+// nativeAtom is the native text of an opaque token under model m.
+func (p *Path) nativeAtom(a *Atom, m map[string]*big.Int, depth int) (string, bool) {
+	if depth > 6 {
+		return "", false
+	}
+	switch a.Kind {
+	case "hex":
+		if a.ID.Op == smt.OApp {
+			return "", false
+		}
+		d := p.nativeDigest(a.Info, a.ID, m, depth+1)
+		return d[len(a.Info)+1:], true
+	case "dec":
+		return evalTerm(a.ID, m).String(), true
+	case "b64":
+		bs, ok := p.nativeBytes(a.Payload, m, depth+1)
+		if !ok {
+			return "", false
+		}
+		return base64.StdEncoding.EncodeToString(bs), true
+	}
+	return "", false
+}
+
+// nativeDigest is the digest string the native twin will hold for the token
+// with identity id: the real digest of the matching hash application's bytes
+// if the model equates them, else the digest zzDigest derives from the id.
+func (p *Path) nativeDigest(alg string, id *smt.T, m map[string]*big.Int, depth int) string {
+	idv := evalTerm(id, m)
+	for _, h := range p.hashApps {
+		if h.alg != alg || evalTerm(h.id, m).Cmp(idv) != 0 {
+			continue
+		}
+		if bs, ok := p.nativeBytes(h.payload, m, depth); ok {
+			if os.Getenv("GOSYM_DEBUGVEC") != "" {
+				fmt.Fprintf(os.Stderr, "nativeDigest id=%s bytes=%q\n", idv, bs)
+			}
+			return realDigest(alg, bs)
+		}
+	}
+	return realDigest(alg, []byte(fmt.Sprintf("zzatom-%d", idv.Int64())))
+}
+
 // vectorFull turns a model into a replay vector: name -> values in call
-// order. Digest inputs whose model value coincides with a hash application
-// are replaced by the real digest of that application's model bytes, so that
-// the native twin (which hashes for real) follows the same path.
+// order. Digest inputs are given as the digest string the native twin must
+// use so that it follows the same path (real hashing there).
 func (p *Path) vectorFull(m map[string]*big.Int) map[string][]interface{} {
 	vec := map[string][]interface{}{}
 	for _, in := range p.inputs {
 		var v interface{}
 		switch {
 		case len(in.Kind) > 7 && in.Kind[:7] == "digest:":
-			alg := in.Kind[7:]
-			idv := evalTerm(in.Term, m)
-			v = idv.Int64()
-			for _, h := range p.hashApps {
-				if h.alg != alg || evalTerm(h.id, m).Cmp(idv) != 0 {
-					continue
-				}
-				bs := make([]byte, 0, len(h.payload))
-				ok := true
-				for _, pv := range h.payload {
-					t, isT := pv.(*smt.T)
-					if !isT {
-						ok = false
-						break
-					}
-					bs = append(bs, byte(evalTerm(t, m).Int64()))
-				}
-				if ok {
-					v = realDigest(alg, bs)
-				}
-				break
-			}
+			v = p.nativeDigest(in.Kind[7:], in.Term, m, 0)
 		default:
 			v = evalTerm(in.Term, m).Int64()
 		}
